@@ -11,6 +11,10 @@
 (*   cst    client -> "idle" | "wait" | "done"                                *)
 (*   net    client -> number of copies of its request in the network          *)
 (*   size   client -> number of octets of its request (set when it sends)     *)
+(*   via    client -> the server address it sent the request to (a server on  *)
+(*          a wildcard socket has several); the reply must come from there    *)
+(*   oob    the place the receive path keeps the session data (which local    *)
+(*          address the last datagram arrived on) while reading               *)
 (*   pool   set of free buffers                                               *)
 (*   blen   buffer -> how many octets a read into it can take: the length of  *)
 (*          the slice that was put into the pool (Cap unless KeepLen)         *)
@@ -23,7 +27,9 @@
 (*                  (Swapped: "recv" -> "freed" -> "released": the buffer     *)
 (*                  goes back to the pool before it has been decoded)         *)
 (*            req   the decoded request [who, n] (who = 0 before decoding)     *)
-(*   rnet   set of replies in the network [to, body]                          *)
+(*            local the session: the local address the datagram arrived on,  *)
+(*                  copied out of oob when it was received                    *)
+(*   rnet   set of replies in the network [to, body, src]                     *)
 (*   got    client -> the reply it received (0 = none)                        *)
 (*   saw    sequence of [from, req]: what each handler invocation saw         *)
 (* A request is identified with its client (distinct names, IDs, payloads)    *)
@@ -35,18 +41,21 @@ CONSTANTS Clients,      \* e.g. 1..3
           Buffers,      \* e.g. 1..2
           Cap,          \* size of a receive buffer (Server.UDPSize); no request is larger
           Swapped,      \* FALSE: decode, then release (as server.go does); TRUE: release, then decode
-          KeepLen       \* FALSE: the whole buffer goes back to the pool; TRUE: the slice cut to the last datagram's length
+          KeepLen,      \* FALSE: the whole buffer goes back to the pool; TRUE: the slice cut to the last datagram's length
+          SessShared    \* FALSE: every task owns a copy of its session data; TRUE: the session points into the receive
+                        \* path's scratch space, which the next datagram overwrites
 
 Nothing == [who |-> 0, n |-> 0]
 Whole(x, c) == [who |-> c, n |-> x.size[c]]          \* the request of client c, all of it
 ReplyFor(req) == <<100 + req.who, req.n>>
+NoAddr == 0
 
 XInit == [cst |-> [c \in Clients |-> "idle"], net |-> [c \in Clients |-> 0], size |-> [c \in Clients |-> 0],
-          pool |-> Buffers, blen |-> [b \in Buffers |-> Cap],
+          via |-> [c \in Clients |-> NoAddr], oob |-> NoAddr, pool |-> Buffers, blen |-> [b \in Buffers |-> Cap],
           buf |-> [b \in Buffers |-> Nothing], tasks |-> <<>>, rnet |-> {}, got |-> [c \in Clients |-> <<>>], saw |-> <<>>]
 
 CanSend(x, c) == x.cst[c] = "idle"
-Send(x, c, n) == [x EXCEPT !.cst[c] = "wait", !.net[c] = @ + 1, !.size[c] = n]
+Send(x, c, n, a) == [x EXCEPT !.cst[c] = "wait", !.net[c] = @ + 1, !.size[c] = n, !.via[c] = a]
 
 \* a client that has not been answered sends again (datagram transports: the request or the reply was lost)
 CanResend(x, c) == x.cst[c] = "wait"
@@ -56,8 +65,8 @@ Resend(x, c)    == [x EXCEPT !.net[c] = @ + 1]
 Taken(x, b, c) == IF x.size[c] < x.blen[b] THEN x.size[c] ELSE x.blen[b]
 CanRecv(x, b, c) == b \in x.pool /\ x.net[c] > 0
 Recv(x, b, c) ==
-  [x EXCEPT !.pool = @ \ {b}, !.buf[b] = [who |-> c, n |-> Taken(x, b, c)], !.net[c] = @ - 1,
-            !.tasks = Append(@, [from |-> c, b |-> b, stage |-> "recv", req |-> Nothing])]
+  [x EXCEPT !.pool = @ \ {b}, !.buf[b] = [who |-> c, n |-> Taken(x, b, c)], !.net[c] = @ - 1, !.oob = x.via[c],
+            !.tasks = Append(@, [from |-> c, b |-> b, stage |-> "recv", req |-> Nothing, local |-> x.via[c]])]
 
 StageIs(x, t, st) == t \in 1..Len(x.tasks) /\ x.tasks[t].stage = st
 
@@ -77,16 +86,20 @@ Handle(x, t) ==
   [x EXCEPT !.saw = Append(@, [from |-> x.tasks[t].from, req |-> x.tasks[t].req]), !.tasks[t].stage = "handled"]
 
 CanReply(x, t) == StageIs(x, t, "handled")
+\* the reply leaves from the local address the session names
+SessionOf(x, t) == IF SessShared THEN x.oob ELSE x.tasks[t].local
 Reply(x, t) ==
-  [x EXCEPT !.rnet = @ \cup {[to |-> x.tasks[t].from, body |-> ReplyFor(x.tasks[t].req)]}, !.tasks[t].stage = "done"]
+  [x EXCEPT !.rnet = @ \cup {[to |-> x.tasks[t].from, body |-> ReplyFor(x.tasks[t].req), src |-> SessionOf(x, t)]},
+            !.tasks[t].stage = "done"]
 
 CanClientRecv(x, c, r) == r \in x.rnet /\ r.to = c /\ x.cst[c] = "wait"
-ClientRecv(x, c, r) == [x EXCEPT !.got[c] = r.body, !.cst[c] = "done"]
+ClientRecv(x, c, r) == [x EXCEPT !.got[c] = <<r.body, r.src>>, !.cst[c] = "done"]
 
 -----------------------------------------------------------------------------
 \* each handler sees exactly the request its client sent; each client gets exactly the reply its handler wrote
 HandlerSeesOwn(x) == \A i \in 1..Len(x.saw) : x.saw[i].req = Whole(x, x.saw[i].from)       \* every octet of it
-ClientGetsOwn(x)  == \A c \in Clients : x.cst[c] = "done" => x.got[c] = ReplyFor(Whole(x, c))
+\* ... and it reaches the client from the address the client talked to (the reply path is not mixed either)
+ClientGetsOwn(x)  == \A c \in Clients : x.cst[c] = "done" => x.got[c] = <<ReplyFor(Whole(x, c)), x.via[c]>>
 NoMixing(x) == HandlerSeesOwn(x) /\ ClientGetsOwn(x)
 
 \* a buffer is never in the pool while a task still has to read it (what makes NoMixing hold)
